@@ -291,7 +291,11 @@ def near_secret(right, kind):
                   'truncate': long[:-1], 'blank': long + ' '}[kind]
 
 
-def run_attack(actions, leaf, cred_i, cred_r, auth, seed, old_auth, r_variant=None, near='other', offer_style='remove'):
+def near_ok(nears):
+    return tuple(nears) == ('other',)
+
+
+def run_attack(actions, leaf, cred_i, cred_r, auth, seed, old_auth, r_variant=None, near='other', offer_style='remove', cookie=False):
     opts = {'ike_encr': ['aes256', 'aes128'], 'ike_integ': ['sha256', 'sha1'], 'auth': auth}
     auth_request_template(auth)          # (its own world: before this one is made the current one)
     w = wd.World(opts=opts, seed=seed, start=False)
@@ -336,6 +340,14 @@ def run_attack(actions, leaf, cred_i, cred_r, auth, seed, old_auth, r_variant=No
             elif name == 'ImpMsg4':
                 cur = w.dispatch('A', forge_auth_response(mitm, w, bytes(cur), a['forge']), 'B')
             elif name == 'Msg1':
+                if cookie:
+                    # the responder is under load: the first request only draws a COOKIE, the initiator repeats it with the cookie in front - and THAT message
+                    # is message 1 of the exchange (it is what is rewritten, and what AUTH must cover)
+                    w.ctl['B'].cookie_threshold = 0
+                    ck = w.dispatch('B', cur, 'A')
+                    cur = w.dispatch('A', ck, 'B')
+                    if cur is None or W.dec_message(bytes(cur))['payloads'][0]['t'] != W.NOTIFY:
+                        raise common.MachineryError('the cookie round trip of the attack harness did not take place')
                 genuine = bytes(cur)
                 cur = w.dispatch('B', mitm.msg1(cur, a['s']), 'A')
                 if a.get('replay'):
@@ -424,8 +436,12 @@ def run(tier, replay=None):
                nears = ('other',) if (cred_i and cred_r) or auth != 'psk' else (NEAR if changes(p) == 0 else (NEAR[pi % len(NEAR)],))
                # how the reduced offer is written on the wire: the strong transform removed, or masked by an attribute that a re-serialisation would drop
                styles = ('remove', 'mask') if any(x['a'] == 'Msg1' and 'offer' in x.get('s', []) for x in actions) else ('remove',)
-               for near, style in [(n_, s_) for n_ in nears for s_ in styles]:
-                got, want, trace = run_attack(actions, leaf, cred_i, cred_r, auth, common.SEED + pi, old_auth, r_variant=r_variant, near=near, offer_style=style)
+               # ... and whether message 1 is the first request or the one repeated with a COOKIE (rewrites that keep SPI and nonce, which the cookie binds)
+               cookies = (False, True) if any(x['a'] == 'Msg1' and set(x.get('s', [])) <= {'offer'} and not x.get('replay') for x in actions) and near_ok(nears) else (False,)
+               for near, style, ck in [(n_, s_, c_) for n_ in nears for s_ in styles for c_ in cookies]:
+                got, want, trace = run_attack(actions, leaf, cred_i, cred_r, auth, common.SEED + pi, old_auth, r_variant=r_variant, near=near, offer_style=style, cookie=ck)
+                if ck:
+                    trace = trace + [{'a': 'message-1-is-the-cookie-retry', 'forge': 'cookie'}]
                 if near != 'other':
                     trace = trace + [{'a': 'wrong-secret', 'forge': near}]
                 if style != 'remove':
